@@ -20,6 +20,7 @@ pub mod c14;
 pub mod c15;
 pub mod c16;
 pub mod c17;
+pub mod c18;
 
 pub fn run(id: &str, tier: Tier, seed: u64) -> Option<i32> {
     Some(match id {
@@ -40,6 +41,7 @@ pub fn run(id: &str, tier: Tier, seed: u64) -> Option<i32> {
         "C15" => c15::run(tier, seed),
         "C16" => c16::run(tier, seed),
         "C17" => c17::run(tier, seed),
+        "C18" => c18::run(tier, seed),
         _ => return None,
     })
 }
@@ -60,6 +62,7 @@ pub fn replay(prop: &str, case: &serde_json::Value) -> Result<u64, String> {
             c10::replay(case)
         }
         "c16-history" => c16::replay(case),
+        "c18-schedule" | "c18-first-use" | "c18-free-running" => c18::replay(case),
         "c17-text" | "c17-step" | "c17-builtin" => c17::replay(case),
         "c14-doc" | "c14-roundtrip" => c14::replay(case),
         "c08-step" | "c08-builder" => c08::replay(case),
@@ -73,6 +76,7 @@ pub fn worker(args: &[String]) -> i32 {
         Some("c13deep") => c13::worker_deep(),
         Some("c10") => c10::worker(&args[1..]),
         Some("c05size") => c05::worker_size(),
+        Some("c18first") => c18::worker_first_use(),
         other => {
             eprintln!("unknown worker {other:?}");
             2
